@@ -16,7 +16,7 @@ PROPERTY = {
         'leaf values are distinct concrete markers (merge code never inspects scalar values)',
         'CPython 3.12, PyYAML 6.0.3, CrossHair 0.0.110 / z3 modelling of Python semantics',
     ],
-    'bounds': {'stages': '2..3 quick / 2..4 thorough', 'leaf depth': '1..3', 'priority': 'absent|-1|0|1 per writer',
+    'bounds': {'stages': '2..3 quick / 2..4 thorough', 'leaf depth': '1..4 (a leaf up to three levels below the tagged container)', 'priority': 'absent|-1|0|1 per writer',
                'site position': 'leaf or any enclosing mapping (one priority site per writer)'},
     'outside': ['an explicit child priority below a differently prioritised container (statement open)',
                 'type changes other than mapping<->scalar at the written path'],
@@ -24,7 +24,7 @@ PROPERTY = {
     'wall_budget': {'quick': 1500, 'thorough': 7000},
 }
 
-KEYS = ['a', 'b', 'c']
+KEYS = ['a', 'b', 'c', 'd']
 
 
 def _doc(depth, pos, tag, val, extra_key, md_tag=None):
@@ -166,6 +166,14 @@ def c03_kind_change(split, pp1, p1, pp2, p2, pp3, p3):
 def _splits(tier):
     out = []
     stages = [2, 3] if tier == 'quick' else [2, 3, 4]
+    # depth 4: a leaf three levels below a tagged container (two writers, site levels 0/3)
+    for pos in ((0, 3), (3, 0), (0, 0), (1, 0), (0, 2)):
+        out.append({'depth': 4, 'n': 2, 'pos': list(pos), 'extra': False})
+    if tier != 'quick':
+        import itertools as _it
+        for pos in _it.product(range(4), repeat=3):
+            if 0 in pos:
+                out.append({'depth': 4, 'n': 3, 'pos': list(pos), 'extra': False})
     for depth in (1, 2, 3):
         for n in stages:
             # positions: all combinations of site level per stage (leaf or any ancestor)
